@@ -1166,6 +1166,8 @@ static char roundTrip(const string& text)
 		AutBase::StateDict d1;
 		a.LoadFromString(parser, text, d1);
 		a.DumpToString(cs1, d1);
+		// what the dump shows must be what was loaded (same rules and final states under the same names)
+		bool same = (cs1.last == parser.ParseString(text));
 		Serialization::TimbukSerializer ser;
 		string text2 = ser.Serialize(cs1.last);
 		try {
@@ -1173,7 +1175,7 @@ static char roundTrip(const string& text)
 			AutBase::StateDict d2;
 			b.LoadFromString(parser, text2, d2);
 			b.DumpToString(cs2, d2);
-			return (cs1.last == cs2.last) ? '1' : '0';
+			return (cs1.last == cs2.last) ? (same ? '1' : 'd') : '0';
 		}
 		catch (const std::exception&) { return 'e'; }
 	}
@@ -1190,6 +1192,7 @@ static char roundTripFA(const string& text)
 		AutBase::StateDict d1;
 		a.LoadFromString(parser, text, d1);
 		a.DumpToString(cs1, d1);
+		bool same = (cs1.last == parser.ParseString(text));
 		Serialization::TimbukSerializer ser;
 		// the NFA dump has no symbol list: give every symbol its rank so that the text parses as written
 		Util::AutDescription d = cs1.last;
@@ -1200,7 +1203,7 @@ static char roundTripFA(const string& text)
 			AutBase::StateDict d2;
 			b.LoadFromString(parser, text2, d2);
 			b.DumpToString(cs2, d2);
-			return (cs1.last == cs2.last) ? '1' : '0';
+			return (cs1.last == cs2.last) ? (same ? '1' : 'd') : '0';
 		}
 		catch (const std::exception&) { return 'e'; }
 	}
